@@ -682,8 +682,9 @@ CHECKS["C02"].update({
              "node at any depth), and for type-system definitions and extensions span_reparse_directive_ts / span_reparse_argument_ts / "
              "span_reparse_description_all over Definition.tdirs / descs (directives and descriptions of the definition and of its field definitions, "
              "argument definitions, enum values, input fields) and span_reparse_field_definition_all / _input_value_definition_all / "
-             "_enum_value_definition_all over Definition.fdefs / ivdefs / evdefs. Of the node kinds of the AST only OperationTypeDefinition "
-             "(`schema { query: Q }`) and bare Name nodes have no theorem through an entry point (span_reparse_node covers them at grammar level). CORRESPONDENCE: decoded values and every node's loc (through the C01 driver), parse_block_string directly; DIRECT "
+             "_enum_value_definition_all over Definition.fdefs / ivdefs / evdefs. OperationTypeDefinition (`schema {<text>LF}`: "
+             "span_reparse_operation_type_definition) and Name (`{ <text>LF}`, the field of that name: span_reparse_name) are covered in the hypothesis "
+             "form (sub-node of a definition's view); with them EVERY node kind of the AST has a re-parse theorem through a public entry point. CORRESPONDENCE: decoded values and every node's loc (through the C01 driver), parse_block_string directly; DIRECT "
              "ORACLES: source[loc] re-parses to an equal node with the Parser method that produced it (incl. trailing children) AND, for these node "
              "kinds, through the public parse() inside the same minimal context; block / quoted lexemes decode to the spec value, numbers and names "
              "verbatim, node.source slices."),
